@@ -16,8 +16,7 @@ import (
 	"sort"
 	"strings"
 
-	"github.com/google/safehtml"
-	"github.com/google/safehtml/template"
+	"verifharness/rxsrc"
 )
 
 var (
@@ -94,7 +93,9 @@ func rxExec(c *caseWriter, name, subject string) {
 	if re == nil {
 		src, ok := allRegexps()[name]
 		if !ok {
-			panic("unknown regexp " + name)
+			// the pattern is gone from the source: nothing to compare against
+			c.Case("rx", hx(name), hx(subject), "gone")
+			return
 		}
 		re = regexp.MustCompile(src)
 		compiled[name] = re
@@ -106,16 +107,7 @@ func rxExec(c *caseWriter, name, subject string) {
 	c.Case("rx", hx(name), hx(subject), b)
 }
 
-func allRegexps() map[string]string {
-	m := map[string]string{}
-	for k, v := range safehtml.VerifRegexps() {
-		m[k] = v
-	}
-	for k, v := range template.VerifRegexps() {
-		m[k] = v
-	}
-	return m
-}
+func allRegexps() map[string]string { return rxsrc.Sources(repoRoot()) }
 
 // product enumerates all sequences of 0..maxLen symbols of alphabet.
 func product(alphabet []string, maxLen int, f func(string)) {
